@@ -425,8 +425,12 @@ def tr_refined():
     top = body[3]
     if not (isinstance(top, ast.If) and t2.src(top.test) == 'np.ndim(times_or_ix) == 0'):
         raise TranslateError('refined: dispatch')
-    if [t2.src(s) for s in top.orelse] != ['m = m._adaptive(times_or_ix)']:
-        raise TranslateError('refined: adaptive branch')
+    # adaptive branch (N60): the selection is normalised here — boolean mask -> indices, empty selection -> int32 — and passed on
+    want_ad = ['marked = np.asarray(times_or_ix)',
+               'if marked.dtype == bool:\n    marked = np.nonzero(marked)[0]\nelif marked.size == 0:\n    marked = marked.astype(np.int32)',
+               'm = m._adaptive(marked)']
+    if [t2.src(s) for s in top.orelse] != want_ad:
+        raise TranslateError('refined: adaptive branch: ' + repr([t2.src(s) for s in top.orelse]))
     loop = t2.only(top.body, 'refined: loop')
     if not (isinstance(loop, ast.For) and t2.src(loop.iter) == 'range(times_or_ix)' and not loop.orelse):
         raise TranslateError('refined: loop header')
